@@ -202,7 +202,11 @@ def bits_to_float(u):
 def compare_segments(req_file, impl_file, model_file, soft_ulps=0, float_fields=None, maxreport=5, rel_tol=1e-13):
     """line-by-line comparison for responses made of ' | '-separated segments.  Every token must be equal, except bare-digit
        tokens (IEEE bit patterns) inside a segment that starts with 'rows=': those are the entries of a matrix produced by an Eigen
-       matrix-matrix product (summation order differs from the model's), compared under |a-b| <= rel_tol * depth * max|entry of the segment|."""
+       matrix-matrix product (summation order differs from the model's), compared under |a-b| <= rel_tol * depth * max|entry of the segment|.
+       Requests on the GENERAL family (`gen`/`genf`): eigenvectors = V * Y with unit columns and unit coefficient vectors, so every term
+       V(i,k) Y(k,j) is bounded by 1 and the rounding difference is relative to max(1, max|entry|) even when a real or imaginary part cancels
+       to a numerically zero matrix (all entries ~1e-16: seen at VERIF_SEED=2, thorough tier, C05 `gen` request 860; same rule as
+       checks/c02.py, c06.py, c14.py)."""
     res = {'total': 0, 'equal': 0, 'soft': 0, 'hard': [], 'badop': 0}
     with open(req_file) as fr, open(impl_file) as fi, open(model_file) as fm:
         for n, (rq, a, b) in enumerate(zip(fr, fi, fm)):
@@ -214,13 +218,14 @@ def compare_segments(req_file, impl_file, model_file, soft_ulps=0, float_fields=
             f32 = rq.split(' ', 1)[0].endswith('32')        # `Scalar = float` requests carry 32-bit patterns
             conv = (lambda u: struct.unpack('<f', struct.pack('<I', u & 0xFFFFFFFF))[0]) if f32 else bits_to_float
             tol = (6e-6 if f32 else rel_tol * 64)
+            floor = 1.0 if rq.split(' ', 1)[0] in ('gen', 'genf') else 0.0
             if ok:
                 for x, y in zip(sa, sb):
                     if x == y: continue
                     tx = x.split(); ty = y.split()
                     if not (tx and tx[0].startswith('rows=') and len(tx) == len(ty)): ok = False; break
                     vals = [conv(int(t)) for t in tx if t.isdigit()]
-                    scale = max([abs(v) for v in vals if v == v] + [0.0])
+                    scale = max([abs(v) for v in vals if v == v] + [floor])
                     for p, q in zip(tx, ty):
                         if p == q: continue
                         if not (p.isdigit() and q.isdigit()): ok = False; break
